@@ -223,6 +223,124 @@ fn main() {
             run.fail("draw-not-bijective", &format!("deck {d}"), &format!("every card reachable: {d}"), &format!("{seen}"));
         }
     }
+    // ---- one kept deck dealt from repeatedly (a dealer outside the engine): hole, hole, flop, turn,
+    // river through Deck::hole / Deck::deal on the SAME Deck value; every dealt card must leave
+    // the deck, all dealt hands pairwise disjoint; forced raw value r for the model line, and
+    // un-forced for the oracle alone
+    {
+        use robopoker::cards::street::Street;
+        let mut cases: Vec<(u64, Option<u8>)> = Vec::new();
+        for r in 0..full.count_ones() as u8 { cases.push((full, Some(r))); }
+        for _ in 0..(if a.thorough() { 4000 } else { 400 }) {
+            let n = 9 + rng.below(full.count_ones() as u64 - 8) as usize;
+            cases.push((rng.cards(n, full), Some(rng.below(64) as u8)));
+        }
+        for n in [0usize, 1, 2, 3, 4, 7, 8] { cases.push((rng.cards(n, full), Some(rng.below(64) as u8))); }
+        for _ in 0..(if a.thorough() { 20000 } else { 2000 }) {
+            let n = 9 + rng.below(full.count_ones() as u64 - 8) as usize;
+            cases.push((if rng.below(2) == 0 { full } else { rng.cards(n, full) }, None));
+        }
+        for (d, r) in cases {
+            run.evaluations += 1;
+            robopoker::verif::set_draw_index(r);
+            let res = catch(|| {
+                let mut deck = Deck::from(Hand::from(d));
+                let mut out: Vec<(u64, u64)> = Vec::new(); // (dealt hand, deck afterwards)
+                let h = u64::from(Hand::from(deck.hole())); out.push((h, u64::from(Hand::from(deck))));
+                let h = u64::from(Hand::from(deck.hole())); out.push((h, u64::from(Hand::from(deck))));
+                for street in [Street::Pref, Street::Flop, Street::Turn] {
+                    let h = u64::from(deck.deal(street)); out.push((h, u64::from(Hand::from(deck))));
+                }
+                out
+            });
+            robopoker::verif::set_draw_index(None);
+            let op = match r { Some(r) => format!("dealrun {d} {r}"), None => format!("dealrun-unforced {d}") };
+            match res {
+                None => {
+                    if r.is_some() { run.line(&op, "panic"); }
+                    if d.count_ones() >= 9 {
+                        run.fail("kept-deck-deal-panics", &op, "nine cards dealt", "panic");
+                    }
+                }
+                Some(out) => {
+                    if r.is_some() {
+                        run.line(&op, &format!("{} {}", out.iter().map(|x| x.0.to_string()).collect::<Vec<_>>().join(" "), out[4].1));
+                    }
+                    run.spec_checked += 1;
+                    let want = [2u32, 2, 3, 1, 1];
+                    let mut before = d;
+                    let mut all = 0u64;
+                    for (k, (h, after)) in out.iter().enumerate() {
+                        let what = ["first hole", "second hole", "flop", "turn", "river"][k];
+                        if h.count_ones() != want[k] || h & !before != 0 {
+                            run.fail("kept-deck-deals-card-not-in-deck", &format!("{op} ({what})"), &format!("{} cards of the remaining deck {before}", want[k]), &format!("dealt {h}"));
+                        }
+                        if *after != before & !h {
+                            run.fail("kept-deck-deal-does-not-remove", &format!("{op} ({what})"), &format!("deck after = {} (deck before {before} without the dealt {h})", before & !h), &format!("{after}"));
+                        }
+                        if all & h != 0 {
+                            run.fail("kept-deck-deals-card-twice", &format!("{op} ({what})"), "no card dealt earlier in this hand", &format!("dealt {h}, earlier {all}"));
+                        }
+                        all |= h;
+                        before = before & !h; // what the deck must be, whatever the code reports
+                    }
+                    if d.count_ones() >= 9 { run.distinct(&(d, r, 9u8)); }
+                }
+            }
+            run.count(if r.is_some() { "kept-deck-forced" } else { "kept-deck-unforced" });
+        }
+    }
+    // ---- Game::deal() on a game that already holds cards (the next hand dealt on the same value):
+    // the new holes come from a FULL deck — with the raw value forced the model predicts them; un-forced,
+    // a card of the previous hand must come back with probability 1 - C(n-4,4)/C(n,4)
+    {
+        use robopoker::gameplay::game::Game;
+        let holes = |g: &Game| -> (u64, u64) {
+            let s = g.verif_seats();
+            (u64::from(Hand::from(s[0].4)), u64::from(Hand::from(s[1].4)))
+        };
+        for r in 0..full.count_ones() as u8 {
+            for prev in [0u8, r, (r + 7) % full.count_ones() as u8] {
+                run.evaluations += 1;
+                let res = catch(|| {
+                    robopoker::verif::set_draw_index(Some(prev));
+                    let g = Game::root();
+                    robopoker::verif::set_draw_index(Some(r));
+                    let g2 = g.deal();
+                    holes(&g2)
+                });
+                robopoker::verif::set_draw_index(None);
+                let op = format!("redeal {full} {r}");
+                match res {
+                    None => { run.line(&op, "panic"); run.fail("redeal-panics", &format!("{op} after a hand dealt with raw value {prev}"), "two holes", "panic"); }
+                    Some((h0, h1)) => { run.line(&op, &format!("{h0} {h1}")); run.spec_checked += 1; run.distinct(&("redeal", r, prev)); }
+                }
+                run.count("redeal-forced");
+            }
+        }
+        let n: u64 = if a.thorough() { 400_000 } else { 60_000 };
+        let mut shared = 0u64;
+        let mut g = Game::root();
+        for _ in 0..n {
+            let (a0, a1) = holes(&g);
+            g = g.deal();
+            let (b0, b1) = holes(&g);
+            if (a0 | a1) & (b0 | b1) != 0 { shared += 1; }
+            if b0 & b1 != 0 || b0.count_ones() != 2 || b1.count_ones() != 2 || (b0 | b1) & !full != 0 {
+                run.fail("redeal-holes-malformed", "Game::deal on a dealt game", "two disjoint 2-card holes of the deck", &format!("{b0} {b1}"));
+            }
+        }
+        run.evaluations += n;
+        run.spec_checked += 1;
+        let m = full.count_ones() as f64;
+        let p = 1.0 - ((m - 4.0) * (m - 5.0) * (m - 6.0) * (m - 7.0)) / (m * (m - 1.0) * (m - 2.0) * (m - 3.0));
+        let sigma = (n as f64 * p * (1.0 - p)).sqrt();
+        run.count(&format!("redeal-shared-card z={:+.1}", (shared as f64 - n as f64 * p) / sigma));
+        if (shared as f64 - n as f64 * p).abs() > 6.0 * sigma {
+            run.fail("redeal-depends-on-previous-hand", &format!("{n} consecutive Game::deal() on one game"),
+                &format!("a card of the previous hand dealt again in about {:.0} hands (p = {:.4})", n as f64 * p, p), &format!("{shared} hands"));
+        }
+    }
     // un-overridden draws: support and frequencies
     let trials: u64 = if a.thorough() { 2_000_000 } else { 400_000 };
     for &d in &[full, 0b111u64 << 20, rng.cards(5, full), rng.cards(13, full)] {
